@@ -342,6 +342,12 @@ def run(ctx):
         use = rng.choice([f"({inner} + e)", f"f({inner}, e)", f"({inner}, e)", f"[e, {inner}][0]", f"(e if {inner} else 1)",
                           f"({v} < e)", f"(-e)", f"g(k=e)", f"{{'a': e}}", f"f(lambda z: (z, {v}, e))"])
         cases.append((rng.choice(["Select", "SelectMany", "Where"]), f"e.m(lambda {v}: {use})", rng.choice(["callable", "callable", "str", "ast"])))
+    # a subscripted attribute that is called, on receivers whose type the library knows without any class model
+    # (literals, callables, comparison results): not a parameterized property, must pass through
+    for recv in ["'a'", "(1)", "(2.5)", "abs", "(lambda y: y)", "(e.x > 1)", "(not e)", "b'x'", "True"]:
+        for at in rng.sample(["args", "pt", "jets", "value", "keys"], 2):
+            cases.append((rng.choice(["Select", "SelectMany"]), f"{recv}.{at}[{rng.choice(['0', chr(39) + 'zz' + chr(39), 'e.n'])}]({rng.choice(['e', 'e.pt', '1, k=e'])})",
+                          rng.choice(["str", "ast", "callable"])))
     for i in range(0, len(cases), 300):
         typed_noise(rng)
         check_cases(ctx, cases[i : i + 300])
